@@ -252,4 +252,189 @@ theorem find_reload_complete {c : Cache} (hc : Sane c) (hn : c.dom.Nodup) (k : K
     simpa using h
   · cases h
 
+/-! ### the history invariant -/
+
+/-- the invariant: the state is sane and every hit agrees with the specification -/
+def CInv (c : Cache) (hist : List Op) : Prop :=
+  Sane c ∧ ∀ k : Key, k.empty = false → ∀ v, c.find k = some v → lastStore k hist = some v
+
+theorem cinv_init (idx dom) : CInv (Cache.init idx dom) [] := by
+  refine ⟨sane_init idx dom, ?_⟩
+  intro k _ v h
+  simp [Cache.find, Cache.init, Slot.fresh] at h
+
+theorem cinv_step {c : Cache} {hist : List Op} (h : CInv c hist) (op : Op) : CInv (c.step op) (op :: hist) := by
+  obtain ⟨hs, hf⟩ := h
+  cases op with
+  | insert k v =>
+    refine ⟨sane_insert hs k v, ?_⟩
+    intro k' hk' w hw
+    simp only [Cache.step] at hw
+    by_cases e : k' = k
+    · subst e; rw [find_insert_self] at hw; simpa [lastStore] using hw
+    · have := find_insert_other c k v k' w e hw
+      simp only [lastStore, if_neg (Ne.symm e)]; exact hf k' hk' w this
+  | clear =>
+    refine ⟨sane_clear hs, ?_⟩
+    intro k' _ w hw
+    simp only [Cache.step, find_clear hs] at hw; cases hw
+  | clearKey k =>
+    refine ⟨sane_clearKey hs k, ?_⟩
+    intro k' hk' w hw
+    simp only [Cache.step] at hw
+    by_cases e : k' = k
+    · subst e; rw [find_clearKey_self c k' hk'] at hw; cases hw
+    · have := find_clearKey_other c k k' w hk' hw
+      simp only [lastStore, if_neg (Ne.symm e)]; exact hf k' hk' w this
+  | reload =>
+    refine ⟨sane_reload hs, ?_⟩
+    intro k' hk' w hw
+    simp only [Cache.step] at hw
+    simp only [lastStore]; exact hf k' hk' w (find_reload hs k' hk' w hw)
+
+theorem cinv_run {c : Cache} {hist : List Op} (h : CInv c hist) (ops : List Op) :
+    CInv (c.run ops) (ops.reverse ++ hist) := by
+  induction ops generalizing c hist with
+  | nil => simpa [Cache.run] using h
+  | cons op ops ih =>
+    have := ih (cinv_step h op)
+    simpa [Cache.run, List.reverse_cons, List.append_assoc] using this
+
+theorem lastStore_mem {k : Key} {v : Fit} {hist : List Op} (h : lastStore k hist = some v) :
+    Op.insert k v ∈ hist := by
+  induction hist with
+  | nil => simp [lastStore] at h
+  | cons op hist ih =>
+    cases op with
+    | insert k' w =>
+      simp only [lastStore] at h
+      split at h
+      · rename_i e; subst e; simp only [Option.some.injEq] at h; subst h; simp
+      · exact List.mem_cons_of_mem _ (ih h)
+    | clear => simp [lastStore] at h
+    | clearKey k' =>
+      simp only [lastStore] at h
+      split at h
+      · cases h
+      · exact List.mem_cons_of_mem _ (ih h)
+    | reload => exact List.mem_cons_of_mem _ (ih (by simpa [lastStore] using h))
+
+/-! ### the seal wrap, before the fix -/
+
+def Cache.stepOld (c : Cache) : Op → Cache
+  | .clear => c.clearOld
+  | op => c.step op
+
+def Cache.runOld (c : Cache) (ops : List Op) : Cache := ops.foldl Cache.stepOld c
+
+theorem runOld_clears (c : Cache) (n : Nat) :
+    c.runOld (List.replicate n Op.clear) = { c with sl := c.sl + UInt32.ofNat n } := by
+  induction n generalizing c with
+  | zero => simp [Cache.runOld]
+  | succ n ih =>
+    simp only [List.replicate_succ, Cache.runOld, List.foldl_cons, Cache.stepOld] at ih ⊢
+    rw [ih]
+    simp only [Cache.clearOld]
+    congr 1
+    rw [UInt32.add_assoc]; congr 1
+    apply UInt32.toNat_inj.mp
+    simp [UInt32.toNat_add, UInt32.toNat_ofNat']
+    omega
+
+theorem lastStore_clears (k : Key) (n : Nat) (hist : List Op) :
+    lastStore k (List.replicate (n + 1) Op.clear ++ hist) = none := by
+  simp [List.replicate_succ, lastStore]
+
+theorem ofNat_two_pow (N : Nat) (hN : N = 4294967296) (x : UInt32) : x + UInt32.ofNat N = x := by
+  apply UInt32.toNat_inj.mp
+  rw [UInt32.toNat_add, UInt32.toNat_ofNat', hN]
+  have := x.toNat_lt
+  omega
+
+/-! ### the proxy -/
+
+section proxy
+variable {Ind Data : Type} (sig : Ind → Key) (ev : Data → Ind → Fit)
+
+/-- invariant of the proxy: every non-empty cached value is the fitness, on the data the
+    evaluations of this epoch ran on, of an individual evaluated in this epoch -/
+def PInv (s : PState Data) (last : Option Data) (seen : List Ind) : Prop :=
+  Sane s.cache ∧ ∀ k : Key, k.empty = false → ∀ v, s.cache.find k = some v → v ≠ [] →
+    ∃ j ∈ seen, sig j = k ∧ ∃ dl, last = some dl ∧ v = ev dl j
+
+theorem proxy_transparent_from (s : PState Data) (last : Option Data) (seen : List Ind)
+    (es : List (Ev Ind Data)) (hinv : PInv sig ev s last seen)
+    (hd : Disciplined sig ev s.data last seen es) :
+    runP sig ev s es = runDirect ev s.data es := by
+  induction es generalizing s last seen with
+  | nil => rfl
+  | cons e es ih =>
+    obtain ⟨hs, hf⟩ := hinv
+    cases e with
+    | eval i =>
+      obtain ⟨hlast, hki, hsig, hrest⟩ := hd
+      simp only [runP, pstep, runDirect]
+      have hmiss : ∀ (hl : s.cache.lookup (sig i) = []),
+          runP sig ev s (Ev.eval i :: es) = runDirect ev s.data (Ev.eval i :: es) := by
+        intro hl
+        simp only [runP, pstep, runDirect, proxyEval, hl, List.isEmpty_nil, if_true]
+        congr 1
+        apply ih _ (some s.data) (i :: seen)
+        · refine ⟨sane_insert hs _ _, ?_⟩
+          intro k hk v hv hne
+          by_cases e : k = sig i
+          · subst e
+            rw [find_insert_self] at hv
+            simp only [Option.some.injEq] at hv
+            exact ⟨i, by simp, rfl, s.data, rfl, hv.symm⟩
+          · have := find_insert_other _ _ _ _ _ e hv
+            obtain ⟨j, hj, hjk, dl, hdl, hvv⟩ := hf k hk v this hne
+            refine ⟨j, List.mem_cons_of_mem _ hj, hjk, dl, ?_, hvv⟩
+            rcases hlast with h | h
+            · rw [h] at hdl; cases hdl
+            · rw [← hdl, h]
+        · exact hrest
+      cases hfind : s.cache.find (sig i) with
+      | none => exact hmiss (by simp [Cache.lookup, hfind])
+      | some v =>
+        by_cases hv : v = []
+        · exact hmiss (by simp [Cache.lookup, hfind, hv])
+        · have hl : s.cache.lookup (sig i) = v := by simp [Cache.lookup, hfind]
+          have hne : v.isEmpty = false := by cases v <;> simp_all
+          simp only [proxyEval, hl, hne]
+          obtain ⟨j, hj, hjk, dl, hdl, hvv⟩ := hf (sig i) hki v hfind hv
+          have hdd : dl = s.data := by
+            rcases hlast with h | h
+            · rw [h] at hdl; cases hdl
+            · rw [h] at hdl; cases hdl; rfl
+          subst hdd
+          simp only [Bool.false_eq_true, if_false]
+          congr 1
+          · rw [hvv]; exact hsig j hj hjk
+          · apply ih s (some s.data) (i :: seen)
+            · refine ⟨hs, ?_⟩
+              intro k hk w hw hwne
+              obtain ⟨j', hj', hjk', dl', hdl', hvv'⟩ := hf k hk w hw hwne
+              exact ⟨j', List.mem_cons_of_mem _ hj', hjk', dl', by rw [← hdl', hdl], hvv'⟩
+            · exact hrest
+    | setData d =>
+      simp only [runP, pstep, runDirect]
+      exact ih _ last seen ⟨hs, hf⟩ hd
+    | clear =>
+      simp only [runP, pstep, runDirect]
+      apply ih _ none []
+      · refine ⟨sane_clear hs, ?_⟩
+        intro k _ v hv
+        simp only [find_clear hs] at hv; cases hv
+      · exact hd
+    | reload =>
+      simp only [runP, pstep, runDirect]
+      apply ih _ last seen
+      · refine ⟨sane_reload hs, ?_⟩
+        intro k hk v hv hne
+        exact hf k hk v (find_reload hs k hk v hv) hne
+      · exact hd
+
+end proxy
+
 end Vita.C04
